@@ -144,7 +144,7 @@ def run_batch(recs, alpha_js, alphabet, stats, what):
         if not finished:
             raise core.MachineryError("MC_ContentProduct did not finish: " + "; ".join(r.errors[:3]) + r.stdout[-1500:])
         # with -continue every violated invariant is reported with its trace; collect (k, invariant, word)
-        for m in re.finditer(r"Error: Invariant (\w+) is violated\.(.*?)(?=Error: Invariant|\Z)", r.stdout, re.S):
+        for m in re.finditer(r"Error: Invariant (\w+) is violated(?: by the initial state)?[.:](.*?)(?=Error: Invariant|\Z)", r.stdout, re.S):
             inv, body = m.group(1), m.group(2)
             ks = re.findall(r"/\\ k = (\d+)", body)
             ws = re.findall(r"/\\ w = (<<.*?>>)", body)
